@@ -4,3 +4,8 @@ package syntax
 // native replay build substitutes through -overlay (C05); in the symbolic
 // interpreter the rewrite passes are intercepted instead.
 var VerifNoRewrite bool
+
+// VerifBmPattern exposes the Boyer-Moore prefix as data (the fact C04 checks).
+func VerifBmPattern(b *BmPrefix) (pattern []rune, caseInsensitive, rightToLeft bool) {
+	return b.pattern, b.caseInsensitive, b.rightToLeft
+}
